@@ -1,6 +1,8 @@
 package cmd
 
 import (
+	"sort"
+
 	"github.com/evolbioinfo/goalign/align"
 	"github.com/evolbioinfo/goalign/io"
 	"github.com/evolbioinfo/goalign/io/utils"
@@ -111,10 +113,16 @@ func writeNameMap(namemap map[string]string, outfile string) (err error) {
 		return
 	}
 
-	for long, short := range namemap {
+	// in the order of the original names, so that the file does not depend on map iteration
+	longs := make([]string, 0, len(namemap))
+	for long := range namemap {
+		longs = append(longs, long)
+	}
+	sort.Strings(longs)
+	for _, long := range longs {
 		f.WriteString(long)
 		f.WriteString("\t")
-		f.WriteString(short)
+		f.WriteString(namemap[long])
 		f.WriteString("\n")
 	}
 	utils.CloseWriteFile(f, outfile)
